@@ -35,6 +35,52 @@ CHECKS["C06"] = dict(
     technique="contract-based deductive verification: VCs from the live ASTs (pyvc), z3/cvc5; native replay",
 )
 
+_T = "contract-based deductive verification: VCs generated from the live ASTs by pyvc, z3/cvc5; native replay"
+CHECKS["C01"] = dict(
+    category="proof",
+    text="Case-split scheme over the bundled table: for each of the 126 countries (text starts with that code) and for "
+         "the complement (code not in the table), the real IBAN(p, validate_bban=flag) is symbolically executed on a "
+         "cleaned text p of SYMBOLIC length; every path is proved to return iff Accept_K(p) (ISO 13616 spec written "
+         "from the structure strings, not from the regex converter) and each raise to name a present defect; accepted "
+         "texts are proved to be <= 34 characters over [A-Z0-9]. numerify is under contract (=Num), verified per length.",
+    design_ref="DESIGN.md C01, 2.5",
+    note="Trusted: pyvc encoding, regex formula compiler (differential-tested each run), z3/cvc5. Input is the cleaned "
+         "payload; Clean itself is C10. National predicate opaque here (C06/C07).",
+    technique=_T)
+CHECKS["C02"] = dict(
+    category="proof",
+    text="Per country: IBAN.from_bban(K, b) for every structure-conforming b returns K+dd+b with dd the canonical "
+         "digits in 02..98 and never raises; IBAN(K+xy+b) for every digit pair xy is accepted iff xy = dd, in "
+         "particular never for the aliases 00/01/99.",
+    design_ref="DESIGN.md C02", note="as C01", technique=_T)
+CHECKS["C03"] = dict(
+    category="proof",
+    text="Link obligations from the real code per country (accepted => chars in [A-Z0-9], len <= 34, Num(bban+cc+dd) "
+         "mod 97 = 1; z3) + Lean 4/Mathlib theorems for all lengths (same-kind substitution, adjacent transposition, "
+         "seam transposition change the remainder) + bounded native mutation sweep as confirmation.",
+    design_ref="DESIGN.md C03, lemmas/C03.lean",
+    note="Trusted: as C01 plus Lean kernel/Mathlib; agreement of the Python spec Num with the Lean num (cross-evaluated); "
+         "the position map of a mutation into the rearranged list is documented, not machine-checked.",
+    technique="contract-based deductive verification (pyvc VCs, z3) + Lean 4 lemmas over the spec function")
+CHECKS["C04"] = dict(
+    category="proof",
+    text="The real BIC(p, enforce_swift_compliance=flag), validate and is_valid are symbolically executed on cleaned "
+         "text of symbolic length with a symbolic flag; every path returns iff AcceptBIC(p, flag) (ISO 9362 structure + "
+         "ISO 3166-1 membership) and each raise names a present defect.",
+    design_ref="DESIGN.md C04",
+    note="Trusted: pyvc, regex compiler (self-tested), z3; pycountry membership contract (probed on all 676 codes).",
+    technique=_T)
+CHECKS["C05"] = dict(
+    category="proof",
+    text="All IBAN tasks of C01 (construct) plus is_valid for every country and the complement, plus the three BIC "
+         "entry points: every symbolic path ends in a return or a library exception (any other exception is a "
+         "refuted obligation with a replayed input), is_valid has no raising path, construction succeeds iff "
+         "is_valid, and each error class implies its defect predicate.",
+    design_ref="DESIGN.md C05",
+    note="as C01/C04; national validation enters through the contract of BBAN.validate_national_checksum (C06/C07), "
+         "whose own totality is part of C06/C07's tasks.",
+    technique=_T)
+
 NOT_YET = {}
 
 ALL = [f"C{i:02d}" for i in range(1, 19)]
